@@ -216,6 +216,35 @@ add('C09', 'exploration',
     'the class the statement names. Held/violated on those executions only.',
     'Peer frames other than the judged opening are valid; HEADERS on live streams are not openings and belong to C06; ids <= 0 passed by the user are C29.')
 
+add('C08', 'exploration',
+    'runtime monitoring: send-side wire-grammar automaton over every emitted frame (independent codec + monitor-owned HPACK decoder) and refusal oracle for model-forbidden calls under order-scrambled API programs',
+    'Order-scrambled programs of send_headers (request / informational / final / trailer header lists, with and without END_STREAM, every '
+    'non-empty subset of priority arguments incl. 0 and False), send_data, end_stream, push_stream, prioritize, '
+    'advertise_alternative_service and reset_stream on new, inbound, pushed (both directions) and upgraded streams, both roles, while '
+    'the peer opens, promises, continues (1xx, final, DATA, trailers, END_STREAM) and resets streams. Every emitted frame is run through a '
+    'per-stream grammar (client opens only with request blocks on odd ids; no PUSH_PROMISE/ALTSVC from clients; no HEADERS from a server '
+    'on a stream neither opened by the peer nor promised by it; no PRIORITY from servers; informational* final DATA* trailers+END_STREAM; '
+    'nothing after END_STREAM or reset) and every call the model forbids must raise ProtocolError (RFC1122Error for server priority) '
+    'and emit nothing. Held/violated on those executions only.',
+    'Whether a permitted call succeeds is not judged here (C06); a stream on which a refusal happened is only judged by the wire grammar afterwards; '
+    'DATA before the response headers from a server is a known finding (three keys, one mechanism).')
+
+add('C22', 'exploration',
+    'runtime monitoring: push accept/refuse oracle from a boundary-driven model (peer ENABLE_PUSH as delivered / local ENABLE_PUSH as acknowledged, parent state, header conformance model, id watermark) on scripted-peer histories for both roles, plus a real-client/real-server duet with settings changes in flight',
+    'Server against scripted client: every push_stream over parents in every state (idle, open, response sent, half-closed either way, '
+    'reset by either side, pushed), ENABLE_PUSH 0/1 at handshake and toggled mid-history, valid / invalid / normalised-away header lists, '
+    'fresh / odd / reused / oversized promised ids; success must emit exactly PUSH_PROMISE(parent, promised) decoding to the normal form, '
+    'refusal must raise ProtocolError, emit nothing and leave the next id unchanged; client frames on promised streams and PUSH_PROMISE '
+    'from a client must never yield request/data/push events. Client against scripted server: every PUSH_PROMISE judged against the '
+    'acknowledged ENABLE_PUSH (0-2 changes in flight), parent state, promised id and header validity, incl. blocks split over CONTINUATION '
+    'and padding; PushedStreamReceived must carry the right ids and headers; promises on locally reset parents must be refused by RST_STREAM '
+    'without events; promised streams must accept a response and refuse request-shaped blocks and nested promises. Duet: the server pushes '
+    'while the client toggles ENABLE_PUSH and resets parents, bytes delivered at arbitrary points; every accepted push must arrive as the '
+    'matching event (or be refused after a client reset), never raise at the client, and the server must accept exactly according to the '
+    'SETTINGS bytes that have reached it. Held/violated on those executions only.',
+    'A parent on which a push was refused is not used again (the library closes a stream on a refused action; that is C01/C06 material); '
+    'header lists whose validity the statement leaves open (CONNECT, neither :authority nor Host) are counted as undetermined.')
+
 NOT_BUILT_REASON = 'check not built yet in this session (planned in DESIGN.md; no verdict claimed)'
 
 def main():
